@@ -12,7 +12,7 @@ use convert_case::{Case, Casing};
 use serde_json::Value;
 use std::collections::{BTreeMap, BTreeSet};
 
-fn case_text(c: &EmitCase) -> String { format!("(case {} (doc {}))", c.label, quote(&serde_json::to_string(&c.doc).unwrap_or_default().chars().take(6000).collect::<String>())) }
+fn case_text(c: &EmitCase) -> String { format!("(case {} (doc {}))", c.label, quote(&serde_json::to_string(&c.doc).unwrap_or_default().chars().take(60000).collect::<String>())) }
 
 pub fn lib_name(c: &EmitCase) -> String { c.cfg.name.to_case(Case::Pascal).to_case(Case::Snake) }
 
@@ -58,7 +58,7 @@ pub fn compile_cases(prop: &str, tier: &str, seed: u64, rep: &mut Report, force_
     }
     let (mut g, mut triggered) = (0usize, 0usize);
     for mut c in all {
-        let generated = c.label.starts_with("(generated");
+        let generated = c.label.starts_with("(generated") || c.label.starts_with("(replay");
         let focused = focus.contains(&c.label) && n_focus < 30;
         if focused { n_focus += 1; rep.bump("cases_taken_from_correspondence_disagreements"); }
         if generated && g >= n_gen && !focused { continue; }
@@ -67,7 +67,7 @@ pub fn compile_cases(prop: &str, tier: &str, seed: u64, rep: &mut Report, force_
         c.cfg.derives.dedup();
         if outside_d_paths(&c.doc) { rep.bump("skipped_outside_D_path_parameters"); continue; }
         if generated {
-            let known = crate::pipeline::parse_spec(&serde_json::to_string(&c.doc).unwrap(), true).ok().and_then(|s| crate::extract::real_extract(&s).ok()).map(|h| !known_compile_triggers(&h).is_empty()).unwrap_or(false);
+            let known = std::env::var("LNV_ONLY_DOC").is_err() && crate::pipeline::parse_spec(&serde_json::to_string(&c.doc).unwrap(), true).ok().and_then(|s| crate::extract::real_extract(&s).ok()).map(|h| !known_compile_triggers(&h).is_empty()).unwrap_or(false);
             if known && !focused { if triggered * 4 > g { continue; } triggered += 1; rep.bump("cases_with_a_recorded_compile_finding"); }
             g += 1;
         }
